@@ -74,12 +74,21 @@ func c06Start(cfg c06Cfg, label string) *c06Run {
 	if err != nil {
 		panic(err)
 	}
+	if c06Retry {
+		// the issuer asked again with another nonce: the first commitment message of this builder is abandoned
+		if _, err := run.cb.CommitToSecretAndProve(new(big.Int).Add(run.nonce1, vfInt(77))); err != nil {
+			panic(err)
+		}
+	}
 	run.commit, err = run.cb.CommitToSecretAndProve(run.nonce1)
 	if err != nil {
 		panic(err)
 	}
 	return run
 }
+
+// c06Retry: runs whose builder already produced (and abandoned) a commitment message for another nonce.
+var c06Retry bool
 
 // c06Issue performs the issuer's step on a (possibly altered) commitment message; returns nil if
 // the issuer rejects.
@@ -155,7 +164,7 @@ func c06CopyISM(m *IssueSignatureMessage) *IssueSignatureMessage {
 func TestVerifC06Honest(t *testing.T) {
 	r := vkit.Start(t, "C06", "honest-runs", 240*time.Second, 1500*time.Second)
 	defer r.Finish()
-	r.Rule = "attribute counts n (quick: 1,2,3,5 and len(R)-1 / thorough: every n) x EVERY subset of random-blind indices (listed ascending or descending) x keyshare on/off x witness on/off, toy and 1024-bit keys; values rotate through the boundary alphabet (incl. hashed sizes); non-trivial = distinct configuration; oracle: issuer accepts the commitment proof, credential is produced, its signature verifies over exactly (secret, attributes), each random-blind attribute = holder share + issuer share, witness attribute present, a disclosure proof from the new credential verifies"
+	r.Rule = "attribute counts n (quick: 1,2,3,5 and len(R)-1 / thorough: every n) x EVERY subset of random-blind indices (listed ascending or descending) x keyshare on/off x witness on/off, toy and 1024-bit keys; every third run on a builder that already produced (and abandoned) a commitment message for another nonce; values rotate through the boundary alphabet (incl. hashed sizes); non-trivial = distinct configuration; oracle: issuer accepts the commitment proof, credential is produced, its signature verifies over exactly (secret, attributes), each random-blind attribute = holder share + issuer share, witness attribute present, a disclosure proof from the new credential verifies"
 	vfInstallEnv(t, "C06/honest", r.Seed)
 	for _, keyName := range []string{"toyA", "k1024a"} {
 		k := vfK(keyName)
@@ -201,7 +210,9 @@ func TestVerifC06Honest(t *testing.T) {
 						r.Eval()
 						r.Nontrivial(cfg.String())
 						rep := cfg.String()
+						c06Retry = r.Evaluations%3 == 0 // every third honest run is a retried session on the same builder
 						run := c06Start(cfg, "h")
+						c06Retry = false
 						ism, why := run.issue(run.commit, run.nonce1, true)
 						if ism == nil {
 							r.Violate("C06|honest-run-failed|issuer", fmt.Sprintf("%s: %s", cfg, why), rep)
